@@ -10,6 +10,7 @@ package main
 //   zeroreflect   C17  zero / freed / Init()-only receivers: no panic, zero results
 
 import (
+	"bytes"
 	"encoding/json"
 	"errors"
 	"fmt"
@@ -32,6 +33,28 @@ type ReflInput struct {
 	Held  bool     `json:"held,omitempty"`
 	Tree  *Node    `json:"tree,omitempty"`
 	Names []string `json:"-"`
+	// DefLog: after the receiver exists, the package defaults
+	// (SetDefaultStackLogger / SetDefaultConditionLogger) are switched to a live
+	// logger for the duration of the calls: an instance is not its package's default
+	DefLog bool `json:"deflog,omitempty"`
+}
+
+var reflLiveLogger = log.New(&bytes.Buffer{}, "live ", 0)
+
+// withDefLog repeats every case that calls a logging-related method with DefLog set.
+func withDefLog(emit func(any, string)) func(any, string) {
+	return func(in any, src string) {
+		emit(in, src)
+		if ri, ok := in.(ReflInput); ok && !ri.DefLog {
+			for _, c := range ri.Calls {
+				if strings.Contains(c.Method, "Log") {
+					ri.DefLog = true
+					emit(ri, src)
+					return
+				}
+			}
+		}
+	}
 }
 
 type RCall struct {
@@ -529,6 +552,14 @@ func runRefl(raw json.RawMessage) (res *Result, err error) {
 			dumpIgnoreErr = true
 		}
 	}
+	if in.DefLog {
+		stk.SetDefaultStackLogger(reflLiveLogger)
+		stk.SetDefaultConditionLogger(reflLiveLogger)
+		defer func() {
+			stk.SetDefaultStackLogger(nil)
+			stk.SetDefaultConditionLogger(nil)
+		}()
+	}
 	heldHandle := pv.Elem().Interface() // a second handle to the instance as it is now
 	before := deepDump(heldHandle, 0)
 	for _, c := range in.Calls {
@@ -714,6 +745,7 @@ var roExceptions = map[string]bool{"SetReadOnly": true, "ReadOnly": true, "SetEr
 var roSeqExceptions = map[string]bool{"SetReadOnly": true, "ReadOnly": true, "Init": true}
 
 func genRoReflect(ctx *Ctx, emit func(any, string)) {
+	emit = withDefLog(emit)
 	sm := methodNames(&stk.Stack{})
 	cm := methodNames(&stk.Condition{})
 	for _, rn := range reflStackRecvs {
@@ -808,6 +840,7 @@ func genRoReflect(ctx *Ctx, emit func(any, string)) {
 }
 
 func genQueryReflect(ctx *Ctx, emit func(any, string)) {
+	emit = withDefLog(emit)
 	sm := methodNames(&stk.Stack{})
 	cm := methodNames(&stk.Condition{})
 	for _, rn := range reflStackRecvs {
@@ -864,6 +897,7 @@ func genQueryReflect(ctx *Ctx, emit func(any, string)) {
 }
 
 func genZeroReflect(ctx *Ctx, emit func(any, string)) {
+	emit = withDefLog(emit)
 	sm := methodNames(&stk.Stack{})
 	cm := methodNames(&stk.Condition{})
 	am := methodNames(&stk.Auxiliary{})
